@@ -123,7 +123,7 @@ func (g *stmtGen) expr(k model.Kind, depth int) model.Expr {
 		case model.KFloat:
 			return model.Lit{V: model.Float([]float64{0, 0.5, 1.5, 2.25}[r.Intn(4)])}
 		case model.KStr:
-			return model.StrLit{S: []string{"", "a", "b c", "z"}[r.Intn(4)], Quote: "\"'"[r.Intn(2)]}
+			return model.StrLit{S: []string{"", "a", "b c", "z", "it's", "say \"hi\"", "'"}[r.Intn(7)], Quote: "\"'"[r.Intn(2)]}
 		case model.KBool:
 			if g.eachDepth > 0 && r.Intn(3) == 0 {
 				return model.Dot{X: model.Var{Name: "loop"}, Name: []string{"first", "last"}[r.Intn(2)]}
